@@ -372,13 +372,13 @@ func c19RealReal(w *world, p *plan, V *baseNode, vp *proto, ai, bi int, bigKey, 
 	agree := oka && okb && va == vb
 	supported := agree && va <= 1
 	w.op("V computes v%d(ok=%v), B computes v%d(ok=%v)", va, oka, vb, okb)
-	refused := map[string]bool{}
+	refusedAny := false
 	noCommon := func(server string, transferred bool, what string) {
 		if !transferred {
-			refused[server] = true
+			refusedAny = true // either side may have computed (and cached) the failed negotiation
 			return
 		}
-		if refused[server] {
+		if refusedAny {
 			w.violate("C19", "error-cached-as-version-0", "real pairing %s <-> %s shares no version: %s refused the first request but served a later one as version 0 (%s)", c19Name(ai), c19Name(bi), server, what)
 			return
 		}
